@@ -39,6 +39,11 @@ def observer(o, c, home, wrong=False):
         return 'equals -contents-of -rel-home %s' % ('wrong.txt' if wrong else 'value.txt')
     if o == 'stdin':
         return '( run % cmp -s - ' + os.path.join(home, 'wrong.txt' if wrong else 'value.txt') + ' )'
+    # consumers that read the head of the text in one pass over its lines and the rest in another
+    if o == 'tail':
+        return '-transformed-by filter -line-nums 2:\n    num-lines == %d' % (c['tailLines'] + (1 if wrong else 0))
+    if o == 'head':
+        return '-transformed-by filter -line-nums 1\n    num-lines == %d' % (c['headLines'] + (1 if wrong else 0))
     raise ValueError(o)
 
 
